@@ -412,7 +412,7 @@ def wallet_scenarios(ctx, rng):
 def emit_family(ctx, d, name, kw):
     cfg = "Emit_%s.cfg" % name
     write_cfg(os.path.join(d, cfg), emit=True, invariants=False, **kw)
-    r = lib.tlc(ctx, d, "MC_ScanBlock", cfg, workers=1, timeout=1500, coverage=False)
+    r = lib.tlc(ctx, d, "Emit_ScanBlock", cfg, workers=1, timeout=1500, coverage=False)
     cases = r.prints("CASE")
     if not cases:
         raise lib.ToolError("family %s emitted no case" % name)
@@ -594,7 +594,7 @@ def nontrivial(c):
 def run(ctx):
     bindir = lib.cargo_build("h_wallet", ["c05_replay"])
     d = lib.stage_specs(ctx, AREA)
-    for m in ("ScanBlock", "MC_ScanBlock", "Eval_ScanBlock", "BatchRunner"):
+    for m in ("ScanBlock", "MC_ScanBlock", "Emit_ScanBlock", "Eval_ScanBlock", "BatchRunner"):
         lib.sany(os.path.join(d, m + ".tla"))
     rng = random.Random(ctx.seed * 7919 + 5)
 
@@ -603,11 +603,11 @@ def run(ctx):
     scenarios = wallet_scenarios(ctx, rng)
     tlc_eval(ctx, d, scenarios, "wallet")
     check_generator(scenarios)
-    pool = concurrent.futures.ThreadPoolExecutor(max_workers=len(THREADS))
+    pool = concurrent.futures.ThreadPoolExecutor(max_workers=len(THREADS) + 1)
     futs = {n: pool.submit(run_wallet_mode, ctx, bindir, scenarios, n, "wallet_t%d" % n) for n in THREADS}
 
-    # (1) the specification alone
-    model_check(ctx, d)
+    # (1) the specification alone (theorems, BatchRunner), next to the emission runs below
+    mc_future = pool.submit(model_check, ctx, d)
 
     # (2a) blocks: TLC-enumerated families + TLC-evaluated seeded random big shapes
     _, emit = families(ctx)
@@ -631,6 +631,7 @@ def run(ctx):
         raise lib.ToolError("block replay consumed %d of %d cases" % (res["cases"], len(cases)))
     judge_block(ctx, res)
     excused = {"scan_block": judge_header_panics(ctx, res, "block")}
+    mc_future.result()
 
     wallet_stats = {}
     for n in THREADS:
